@@ -115,14 +115,40 @@ func Files() []*File {
 	return files
 }
 
-// ByID finds a corpus file.
+// ByID finds a corpus file (or a registered in-memory one).
 func ByID(id string) *File {
+	memMu.Lock()
+	m := mem[id]
+	memMu.Unlock()
+	if m != nil {
+		return m
+	}
 	for _, f := range Files() {
 		if f.ID == id {
 			return f
 		}
 	}
 	return nil
+}
+
+var (
+	memMu sync.Mutex
+	mem   = map[string]*File{}
+)
+
+// RegisterMem makes a harness-built font file addressable like a corpus file (ByID,
+// ParseRef); it is not part of Files() / Faces(). Registering an id twice returns the
+// first file.
+func RegisterMem(id string, data []byte) *File {
+	memMu.Lock()
+	defer memMu.Unlock()
+	if f := mem[id]; f != nil {
+		return f
+	}
+	f := &File{ID: id}
+	f.once.Do(func() { f.data = data })
+	mem[id] = f
+	return f
 }
 
 // Bytes returns the file content (cached).
